@@ -9,7 +9,8 @@ RULE = ('every labelled simple graph on n <= N vertices (all 2^(n(n-1)/2) edge s
         'ascending and in descending vertex order, x {min_fill, quickbb, acb}: decomposition validity (tree, vertex '
         'and edge cover, running intersection) checked by the harness; width vs exact treewidth (subset DP); '
         'min_fill/quickbb orders re-eliminated by the harness; bounds bracket the treewidth. Non-trivial = graph '
-        'with >= 1 edge; distinct by (n, edge bits, order).')
+        'with >= 1 edge; distinct by (n, edge bits, order). Thorough tier additionally: every one-vertex extension (8 vertices) '
+        'of each 7-vertex graph on which min-fill is suboptimal, i.e. where quickbb actually has to search.')
 ASSUMPTIONS = ['vertices are small ints', 'treewidth oracle: Bodlaender et al. subset DP, plain Python']
 METHODS = ('min_fill', 'quickbb', 'acb')
 BLOCK = 64
@@ -36,6 +37,8 @@ def gen_cases(tier, seed):
 
 
 def describe(case):
+    if case[0] == 'ext8':
+        return {'one_vertex_extensions_of_7_vertex_graph_with_edge_bits': case[1]}
     return {'n': case[0], 'edge_bits_from': case[1], 'to': case[2]}
 
 
@@ -121,57 +124,99 @@ def width_of_order(g, order):
 
 
 def run_case(case):
-    from fggs import factorize as F
-    import sys
-    F = sys.modules['fggs.factorize']
-    n, lo, hi = case
     r = Res()
+    if case[0] == 'ext8':
+        # every one-vertex extension of a 7-vertex graph on which min-fill is not optimal (quickbb has to search there)
+        _, bits = case
+        base = mkgraph(7, bits, 0)
+        for nb_mask in range(128):
+            for order in (0, 1):
+                vs = list(range(8))
+                if order:
+                    vs.reverse()
+                g = {v: set() for v in vs}
+                for u in base:
+                    for v in base[u]:
+                        g[u].add(v)
+                for u in range(7):
+                    if nb_mask >> u & 1:
+                        g[7].add(u)
+                        g[u].add(7)
+                judge_graph(g, ('ext8', bits, nb_mask, order), ('ext8', bits), True, r)
+        return r
+    n, lo, hi = case
     for bits in range(lo, hi):
         for order in (0, 1):
             g = mkgraph(n, bits, order)
-            key = (n, bits, order)
-            sub = (n, bits, bits + 1)
-            tw = oracles.treewidth(g)
-            nontriv = bits != 0
-            okall = True
-            # bound helpers
-            try:
-                lb = F.minor_min_width(copyg(g)) if n else None
-                ub, ord_mf = F.min_fill(copyg(g))
-                qb, ord_qb = F.quickbb(copyg(g))
-            except Exception as e:
-                r.exc(e, 'any', sub, key)
-                continue
-            if n:
-                if not (lb <= tw):
-                    r.bad('lower-bound-too-high', 'factorize.minor_min_width', 'any', 'g=%r lb=%r tw=%r' % (g, lb, tw), sub, key); okall = False
-                if not (tw <= ub):
-                    r.bad('upper-bound-too-low', 'factorize.min_fill', 'any', 'g=%r ub=%r tw=%r' % (g, ub, tw), sub, key); okall = False
-                w = width_of_order(g, ord_mf)
-                if w is None or w != ub:
-                    r.bad('min_fill-width-misreported', 'factorize.min_fill', 'any', 'g=%r reported=%r order=%r actual=%r' % (g, ub, ord_mf, w), sub, key); okall = False
-                w = width_of_order(g, ord_qb)
-                if qb != tw or w is None or w != tw:
-                    r.bad('quickbb-not-optimal', 'factorize.quickbb', 'any', 'g=%r reported=%r order=%r order-width=%r tw=%r' % (g, qb, ord_qb, w, tw), sub, key); okall = False
-            for m in METHODS:
-                try:
-                    t = F.tree_decomposition(copyg(g), method=m)
-                except Exception as e:
-                    r.exc(e, m, sub, key)
-                    okall = False
-                    continue
-                msg = validate(g, t)
-                if msg:
-                    r.bad('invalid-decomposition', 'factorize.tree_decomposition', m, 'g=%r method=%s: %s; t=%r' % (g, m, msg, t), sub, key)
-                    okall = False
-                    continue
-                width = max(len(b) for b in t) - 1
-                if m in ('quickbb', 'acb') and width != tw:
-                    r.bad('not-optimal', 'factorize.tree_decomposition', m, 'g=%r method=%s width=%d treewidth=%d' % (g, m, width, tw), sub, key)
-                    okall = False
-                elif m == 'min_fill' and n and width != ub:
-                    r.bad('min_fill-width-misreported', 'factorize.tree_decomposition', m, 'g=%r decomposition width=%d reported=%d' % (g, width, ub), sub, key)
-                    okall = False
-            if okall:
-                r.ok(key, outcome=('tw', tw), nontrivial=nontriv)
+            res = judge_graph(g, (n, bits, order), (n, bits, bits + 1), bits != 0, r)
+            if n == 7 and order == 0 and res is not None and res[1] > res[0]:
+                r.payload.append(bits)
     return r
+
+
+def judge_graph(g, key, sub, nontriv, r):
+    """All C10 judgements for one graph; returns (treewidth, min_fill width) or None."""
+    import sys
+    F = sys.modules['fggs.factorize']
+    n = len(g)
+    tw = oracles.treewidth(g)
+    okall = True
+    try:
+        lb = F.minor_min_width(copyg(g)) if n else None
+        ub, ord_mf = F.min_fill(copyg(g))
+        qb, ord_qb = F.quickbb(copyg(g))
+    except Exception as e:
+        r.exc(e, 'any', sub, key)
+        return None
+    if n:
+        if not (lb <= tw):
+            r.bad('lower-bound-too-high', 'factorize.minor_min_width', 'any', 'g=%r lb=%r tw=%r' % (g, lb, tw), sub, key); okall = False
+        if not (tw <= ub):
+            r.bad('upper-bound-too-low', 'factorize.min_fill', 'any', 'g=%r ub=%r tw=%r' % (g, ub, tw), sub, key); okall = False
+        w = width_of_order(g, ord_mf)
+        if w is None or w != ub:
+            r.bad('min_fill-width-misreported', 'factorize.min_fill', 'any', 'g=%r reported=%r order=%r actual=%r' % (g, ub, ord_mf, w), sub, key); okall = False
+        w = width_of_order(g, ord_qb)
+        if qb != tw or w is None or w != tw:
+            r.bad('quickbb-not-optimal', 'factorize.quickbb', 'any', 'g=%r reported=%r order=%r order-width=%r tw=%r' % (g, qb, ord_qb, w, tw), sub, key); okall = False
+    for m in METHODS:
+        try:
+            t = F.tree_decomposition(copyg(g), method=m)
+        except Exception as e:
+            r.exc(e, m, sub, key)
+            okall = False
+            continue
+        msg = validate(g, t)
+        if msg:
+            r.bad('invalid-decomposition', 'factorize.tree_decomposition', m, 'g=%r method=%s: %s; t=%r' % (g, m, msg, t), sub, key)
+            okall = False
+            continue
+        width = max(len(b) for b in t) - 1
+        if m in ('quickbb', 'acb') and width != tw:
+            r.bad('not-optimal', 'factorize.tree_decomposition', m, 'g=%r method=%s width=%d treewidth=%d' % (g, m, width, tw), sub, key)
+            okall = False
+        elif m == 'min_fill' and n and width != ub:
+            r.bad('min_fill-width-misreported', 'factorize.tree_decomposition', m, 'g=%r decomposition width=%d reported=%d' % (g, width, ub), sub, key)
+            okall = False
+    if okall:
+        r.ok(key, outcome=('tw', tw), nontrivial=nontriv)
+    return (tw, ub if n else -1)
+
+
+def explore(tier, seed, acc, jobs):
+    """quick: plain enumeration.  thorough: enumeration up to 7 vertices, then every one-vertex extension (all 128
+    neighbourhoods, two vertex orders) of each 7-vertex graph on which min-fill is not optimal."""
+    import sys
+    from mc.core import run_pool, Accum
+    me = sys.modules[__name__]
+    run_pool(me, gen_cases(tier, seed), acc, jobs=jobs)
+    if tier != 'thorough':
+        return
+    hard = sorted(set(acc.payloads))
+    acc.payloads = []
+    cap = 3000
+    acc.extra['n7_graphs_where_min_fill_is_suboptimal'] = len(hard)
+    if len(hard) > cap:
+        acc.caps.append('8-vertex extensions built for the first %d of %d hard 7-vertex graphs' % (cap, len(hard)))
+        hard = hard[:cap]
+    run_pool(me, [('ext8', b) for b in hard], acc, jobs=jobs, chunk=4)
